@@ -592,10 +592,42 @@ def indexing(ctx):
     sa = ctx.fn(AT, 'Atoms.__setattr__')
     t = norm(sa).replace(' ', '')
     ctx.ob('INDEXING', AT + '::Atoms.__setattr__', 'attribute assignment of a property goes through the guarded table', 'ifnothasattr(self,name)ornameinself.view:self.view[name]=value' in t, node=sa)
+    # prop_atype by evaluation on a five-atom table of three types (one type without atoms)
     pa = ctx.fn(AT, 'Atoms.prop_atype')
-    t = norm(pa).replace(' ', '')
-    ok = 'self.view[key]=value[self.atype-1]' in t and 'self.view[key][self.atype==atype]=value' in t and 'iflen(value)>=self.natypes' in t and 'ifatypeinself.atypes' in t
-    ctx.ob('INDEXING', AT + '::Atoms.prop_atype', 'per-type assignment maps type t to entry t-1 / masks rows of the given type; short lists and unknown types refused', ok, node=pa)
+    ATY = arr([2, 1, 4, 1, 2])
+
+    class _View(dict):
+        pass
+
+    def run_pa(key, value, atype=None, existing=None):
+        view = _View({'atype': ATY.copy()})
+        if existing is not None:
+            view[key] = existing.copy()
+        obj = SymObj(cls, {'view': view, 'atype': ATY.copy(), 'natypes': I(4), 'atypes': (1, 2, 4), 'natoms': I(5), 'prop': lambda *a, **k: list(view.keys())}, 'self')
+        ev_ = SymEval(module_aliases(ctx.mod(AT)))
+        try:
+            live = [q for q in ev_.run_fn(pa, [obj, key, value], {} if atype is None else {'atype': atype}) if q.done == 'return']
+        except WouldRaise:
+            return 'refused', view
+        except Opaque as e:
+            raise AnalysisError('Atoms.prop_atype: %s' % e)
+        return ('accepted' if live else 'refused'), view
+    PT = symarray('t', (4,))
+    st_, view = run_pa('charge', PT)
+    ok1 = st_ == 'accepted' and 'charge' in view and np.shape(view['charge']) == (5,) and all(is_zero(sp.sympify(view['charge'][i]) - PT[int(ATY[i]) - 1], deep=False) for i in range(5))
+    PV = symarray('w', (4, 3))
+    st_, view = run_pa('moment', PV)
+    ok1 = ok1 and st_ == 'accepted' and np.shape(view.get('moment')) == (5, 3) and all(equal(np.asarray(view['moment'][i], dtype=object), PV[int(ATY[i]) - 1], deep=False) for i in range(5))
+    st_, view = run_pa('charge', PT[:3])
+    ok2 = st_ == 'refused' and 'charge' not in view
+    OLD = symarray('c', (5,))
+    st_, view = run_pa('charge', sp.Symbol('q2'), atype=2, existing=OLD)
+    ok3 = st_ == 'accepted' and all(is_zero(sp.sympify(view['charge'][i]) - (sp.Symbol('q2') if int(ATY[i]) == 2 else OLD[i]), deep=False) for i in range(5))
+    st_, view = run_pa('charge', sp.Symbol('q3'), atype=3, existing=OLD)
+    ok4 = st_ == 'refused' and equal(np.asarray(view['charge'], dtype=object), OLD, deep=False)
+    ctx.ob('INDEXING', AT + '::Atoms.prop_atype', 'per-type assignment gives every atom the entry of its own type (entry t-1 for type t, whole rows for vector values); one type given: only the atoms of that type change; '
+           'a list shorter than the number of types and a type no atom has are refused and nothing is written', bool(ok1 and ok2 and ok3 and ok4),
+           'all types %s, short list %s, one type %s, unknown type %s' % (ok1, ok2, ok3, ok4), node=pa)
     ix = ctx.fn(SYS, 'System._AtomsIndexer.__getitem__')
     c = [x for x in calls_in(ix) if norm(x.func) == 'System']
     ok = len(c) == 1 and norm(kwarg(c[0], 'atoms')) == 'host.atoms[index]' and norm(kwarg(c[0], 'box')) == 'host.box' and norm(kwarg(c[0], 'pbc')) == 'host.pbc' and norm(kwarg(c[0], 'symbols')) == 'host.symbols'
